@@ -11,20 +11,25 @@ namespace SMD.C13
 
 /-- the field set of an accepted value exists -/
 theorem fieldset_ok_of_valid (s : Schema) (tr : TypeRef) (v : Value)
-    (hv : validateV s true tr v = .ok ()) : ∃ ps, fsV s tr v = .ok ps := sorry
+    (hv : validateV s true tr v = .ok ()) : ∃ ps, fsV s tr v = .ok ps :=
+  fsV_total s v tr hv
 
 /-- comparing two accepted values of one type returns a comparison -/
 theorem compare_ok_of_valid (s : Schema) (tr : TypeRef) (l r : Value) (fuel : Nat)
     (hl : validateV s true tr l = .ok ()) (hr : validateV s true tr r = .ok ())
     (hla : listsAssociative s tr l = true) (hra : listsAssociative s tr r = true)
     (hf : l.depth + r.depth < fuel) :
-    ∃ c, cmpNode s fuel (some l) (some r) tr = .ok c := sorry
+    ∃ c, cmpNode s fuel (some l) (some r) tr = .ok c :=
+  cmpNode_ok s fuel (some l) (some r) tr (Or.inl rfl)
+    (fun _ h => by cases h; exact ⟨hl, hla⟩) (fun _ h => by cases h; exact ⟨hr, hra⟩) hf
 
 /-- merging an accepted duplicate-free value over an accepted value returns an object -/
 theorem merge_ok_of_valid (s : Schema) (tr : TypeRef) (l r : Value) (fuel : Nat)
     (hl : validateV s true tr l = .ok ()) (hr : validateV s false tr r = .ok ())
     (hla : listsAssociative s tr l = true) (hra : listsAssociative s tr r = true)
     (hf : l.depth + r.depth < fuel) :
-    ∃ out, mergeNode s fuel (some l) (some r) tr = .ok (some out) := sorry
+    ∃ out, mergeNode s fuel (some l) (some r) tr = .ok (some out) :=
+  mergeNode_ok s fuel (some l) (some r) tr (Or.inl rfl)
+    (fun _ h => by cases h; exact ⟨hl, hla⟩) (fun _ h => by cases h; exact ⟨hr, hra⟩) hf
 
 end SMD.C13
